@@ -1,0 +1,51 @@
+//go:build verif
+
+package midix
+
+// Contracts for govc (contract-based deductive verification, see /verif/DESIGN.md).
+// This file is compiled only with -tags verif and contains no executable code.
+
+// ---- tracks (C06): who gets the operation, who gets its delay ----
+
+//@ func Track.AddTickDelta
+//@   modifies t
+//@   requires t != nil
+//@   ensures t.tickDelta == spec.u32(old(t.tickDelta) + tickDelta) && t.ops == old(t.ops)
+
+// Track.Add folds the pending delay into the operation and appends it.
+//@ func Track.Add
+//@   modifies t, op
+//@   allocs []*TrackOp
+//@   requires t != nil && op != nil
+//@   ensures op.TickDelta == spec.u32(old(op.TickDelta) + old(t.tickDelta)) && op.Func == old(op.Func) && op.Type == old(op.Type)
+//@   ensures t.tickDelta == 0
+//@   ensures len(t.ops) == old(len(t.ops)) + 1 && t.ops[len(t.ops) - 1] == op
+//@   ensures forall(k, 0, old(len(t.ops)), t.ops[k] == old(t.ops[k]))
+
+//@ define wfSet(ts) ts != nil && forall(i, 0, len(ts.list), ts.list[i] != nil) && forall(i, 0, len(ts.list), forall(j, 0, len(ts.list), i != j ==> ts.list[i] != ts.list[j]))
+
+// TrackSet.Add: the operation goes to exactly one track, carrying that track's pending delay;
+// every other track's pending delay grows by the operation's own delay; nothing else changes.
+//@ func TrackSet.Add
+//@   modifies Track, op
+//@   allocs []*TrackOp
+//@   requires wfSet(ts) && op != nil && 0 <= trackNo && trackNo < len(ts.list)
+//@   ensures op.TickDelta == spec.u32(old(op.TickDelta) + old(ts.list[trackNo].tickDelta)) && op.Func == old(op.Func) && op.Type == old(op.Type)
+//@   ensures ts.list[trackNo].tickDelta == 0
+//@   ensures len(ts.list[trackNo].ops) == old(len(ts.list[trackNo].ops)) + 1 && ts.list[trackNo].ops[len(ts.list[trackNo].ops) - 1] == op
+//@   ensures forall(k, 0, old(len(ts.list[trackNo].ops)), ts.list[trackNo].ops[k] == old(ts.list[trackNo].ops[k]))
+//@   ensures forall(i, 0, len(ts.list), i != trackNo ==> ts.list[i].tickDelta == spec.u32(old(ts.list[i].tickDelta) + old(op.TickDelta)) && ts.list[i].ops == old(ts.list[i].ops))
+//@   loop 0 modifies Track
+//@   loop 0 invariant 0 - 1 <= rangeindex && rangeindex < len(ts.list)
+//@   loop 0 invariant ts.list[trackNo].tickDelta == 0
+//@   loop 0 invariant len(ts.list[trackNo].ops) == old(len(ts.list[trackNo].ops)) + 1 && ts.list[trackNo].ops[len(ts.list[trackNo].ops) - 1] == op
+//@   loop 0 invariant forall(k, 0, old(len(ts.list[trackNo].ops)), ts.list[trackNo].ops[k] == old(ts.list[trackNo].ops[k]))
+//@   loop 0 invariant forall(i, 0, rangeindex + 1, i != trackNo ==> ts.list[i].tickDelta == spec.u32(old(ts.list[i].tickDelta) + old(op.TickDelta)) && ts.list[i].ops == old(ts.list[i].ops))
+//@   loop 0 invariant forall(i, rangeindex + 1, len(ts.list), i != trackNo ==> ts.list[i].tickDelta == old(ts.list[i].tickDelta) && ts.list[i].ops == old(ts.list[i].ops))
+//@   loop 0 decreases len(ts.list) - rangeindex
+
+// meta operations go to track 0; the i-th note of a chord to track 1 + i mod (N-1) (track 0 when N == 1)
+//@ func TrackNoSelectorImpl.Select returns (r)
+//@   pure
+//@   requires t.trackNum >= 1
+//@   ensures 0 <= r && r < t.trackNum
